@@ -96,7 +96,7 @@ def run(c):
     small = [(1, 1), (2, 1), (2, 2)]
     if c.quick:
         groups = [(small, 6), ([(3, 2)], 3)]
-        policy = {(1, 1): "all", (2, 1): "all", (2, 2): 1, (3, 2): 1}
+        policy = {(1, 1): "all", (2, 1): "all", (2, 2): 2, (3, 2): 2}
         wsizes = 2
     else:
         groups = [(small + [(3, 2)], 6), ([(4, 2)], 6)]
@@ -162,7 +162,7 @@ def run(c):
     if devs:
         c.sample(dict(deviation_classes={k: v for k, v in sorted(seen.items())[:12]}))
     c.cov.update(dict(
-        exhaustive=True, evaluations=reads, reads_in_child_process=reads, child_crashes_observed=crashes,
+        exhaustive=c.cov.get("reads_skipped_by_crash_gate", 0) == 0, exhaustive_enumeration=True, evaluations=reads, reads_in_child_process=reads, child_crashes_observed=crashes,
         writes_executed=len(wtraces), damage_cases=ncases, distinct_nontrivial=len(distinct),
         deviation_records=len(devs), deviation_classes=len(seen),
         rule="one case = (d, p, blob size, damage kind per shard file, concrete damage variant class per shard) read back "
